@@ -217,26 +217,102 @@ fn strip_tamper(w: &World) -> World {
     t
 }
 
+/// Every regular file below `dir` gets the same, fixed modification time.
+pub fn pin_mtimes(dir: &Path) {
+    let t = std::time::UNIX_EPOCH + std::time::Duration::from_secs(1_700_000_000);
+    let Ok(rd) = std::fs::read_dir(dir) else { return };
+    for e in rd.flatten() {
+        let p = e.path();
+        let Ok(m) = std::fs::symlink_metadata(&p) else { continue };
+        if m.is_dir() {
+            pin_mtimes(&p);
+        } else if m.is_file() {
+            if let Ok(f) = std::fs::OpenOptions::new().write(true).open(&p) {
+                let _ = f.set_modified(t);
+            }
+        }
+    }
+}
+
+/// History on disk: the link directory `dir` first holds world `prev`, which is verified once
+/// with `prev_keys` (verdict not judged); then the very same paths are rewritten to hold `w`.
+/// All files carry one fixed modification time before and after, as after `cp -p`, `rsync -t` or
+/// unpacking an archive, so neither path nor time stamp (nor, where the two worlds differ by
+/// same-length edits only, size) tells the two states apart - only the bytes do.
+pub fn write_world_after(prev: &World, prev_keys: &[KeySpec], w: &World, dir: &Path) -> MatInfo {
+    let pinfo = write_world_inner(prev, dir);
+    pin_mtimes(dir);
+    let _ = run_verify(&pinfo, &own_ids(prev_keys), dir, None);
+    let _ = std::fs::remove_dir_all(dir);
+    let info = write_world_inner(w, dir);
+    pin_mtimes(dir);
+    info
+}
+
+pub fn good_signers(w: &World) -> Vec<KeySpec> {
+    let mut signers: Vec<KeySpec> = vec![];
+    for e in &w.sigs {
+        if e.corrupt.is_none() && e.label.is_none() && !signers.contains(&e.signer) {
+            signers.push(e.signer.clone());
+        }
+    }
+    signers
+}
+
 /// Materialise `w` under `dir`. History: when some document of `w` was edited after signing,
-/// the same world *without* the edits (the genuine documents, carrying the very same signature
-/// values) is first written to `<dir>-genuine` and verified once with the layout's own signers,
-/// so that the edited copy is always presented to a process that has already seen - and
-/// accepted - the genuine one. The outcome of that priming call is not judged.
+/// the directory first holds the same world *without* the edits (the genuine documents, carrying
+/// the very same signature values), which is verified once with the layout's own signers, so that
+/// the edited copy is always presented to a process that has already seen - and accepted - the
+/// genuine one at the same paths. The outcome of that priming call is not judged.
 pub fn write_world(w: &World, dir: &Path) -> MatInfo {
     if has_tamper(w) && !has_inspections(w) {
         let twin = strip_tamper(w);
-        let tdir = PathBuf::from(format!("{}-genuine", dir.display()));
-        let info = write_world_inner(&twin, &tdir);
-        let mut signers: Vec<KeySpec> = vec![];
-        for e in &twin.sigs {
-            if e.corrupt.is_none() && e.label.is_none() && !signers.contains(&e.signer) {
-                signers.push(e.signer.clone());
-            }
-        }
-        let _ = run_verify(&info, &own_ids(&signers), &tdir, None);
-        let _ = std::fs::remove_dir_all(&tdir);
+        let signers = good_signers(&twin);
+        return write_world_after(&twin, &signers, w, dir);
     }
     write_world_inner(w, dir)
+}
+
+/// For every `*.link` file below `dir`: a copy of the same length in which one hex digit of the
+/// first signature value is changed. Returns (path, original bytes) for `restore_files`.
+pub fn near_copies_in_place(dir: &Path) -> Vec<(PathBuf, Vec<u8>)> {
+    let mut saved = vec![];
+    let Ok(rd) = std::fs::read_dir(dir) else { return saved };
+    let mut entries: Vec<PathBuf> = rd.flatten().map(|e| e.path()).collect();
+    entries.sort();
+    for p in entries {
+        let Ok(m) = std::fs::symlink_metadata(&p) else { continue };
+        if m.is_dir() {
+            saved.extend(near_copies_in_place(&p));
+        } else if m.is_file() && p.extension().map(|e| e == "link").unwrap_or(false) {
+            let Ok(orig) = std::fs::read(&p) else { continue };
+            let marker = b"\"sig\":\"";
+            if let Some(i) = orig.windows(marker.len()).position(|w| w == marker) {
+                let j = i + marker.len();
+                if j < orig.len() && orig[j].is_ascii_hexdigit() {
+                    let mut near = orig.clone();
+                    near[j] = if orig[j] == b'0' { b'1' } else { b'0' };
+                    if std::fs::write(&p, &near).is_ok() {
+                        saved.push((p, orig));
+                    }
+                }
+            }
+        }
+    }
+    saved
+}
+
+pub fn restore_files(saved: &[(PathBuf, Vec<u8>)]) {
+    for (p, bytes) in saved {
+        let _ = std::fs::write(p, bytes);
+    }
+}
+
+pub fn run_world_after(prev: &World, w: &World, caller: &[KeySpec], dir: &PathBuf, now: i64) -> (Option<Result<Metablock, String>>, Judged, MatInfo) {
+    let info = write_world_after(prev, caller, w, dir);
+    let j = judge(w, &info, caller, now, true);
+    let r = run_verify(&info, &own_ids(caller), dir, None);
+    (r, j, info)
 }
 
 fn write_world_inner(w: &World, dir: &Path) -> MatInfo {
